@@ -1,8 +1,12 @@
 """C11 — a CRSD written by sarpy reads back identically and its header describes the file.
 
 proof side : lean/SarpyModel/Props/C11.lean (CRSD instantiation: ordered / disjoint / aligned blocks, file end, header text fits for the
-             layout the retry rule returns, XML offset aligned, packed elements tile their block) on top of Props/C09.lean
-tie        : the header CRSDWriter1 actually wrote is compared, number by number, with the Lean model:
+             layout the retry rule returns, XML offset aligned, packed elements tile their block) on top of Props/C09.lean; Props/C11W.lean (explicit
+             CRSD header text, retry termination, writer state machine restated for CRSDWriter1); Bridge/Cphd.lean (the kernels and header tables
+             regenerated from CRSD.py equal the reference definitions)
+tie        : translator (translate/gen_cphd.py, Gen/CphdKernels.lean regenerated from CRSD.py on every run, bridge theorems in REQUIRED, three-way
+             differential Python fragment / Gen / Spec); op-history correspondence of the writer machine with CRSDWriter1 (harness/cphdwriter.py);
+             the header CRSDWriter1 actually wrote is compared, number by number, with the Lean model:
              `cphd layout` (block chain), `crsd header` (header text length + retry rule from offset 1024), `cphd ranges` / `crsd packed`
              (per-channel / per-support-array byte ranges from the metadata's relative offsets)
 search     : independent byte-level parser of the written file (cphdgen.check_layout), the payload bytes found at the independently computed
@@ -21,11 +25,15 @@ import numpy
 from common import Check, Driver, Infra, sarpy_guard
 import cphdgen
 import crsdgen
+import cphdwriter
+import cphdkernels
 from c02 import meta_diff
 
 REQUIRED = ['crsd_layout_sound', 'blocks_disjoint', 'file_end_bounds', 'no_support_special_case', 'packedB_iff', 'packed_ranges_within',
             'packed_ranges_first', 'packed_ranges_last', 'elements_tile_block', 'digits_pos', 'hdrLen_lower', 'choose_second', 'crsd_first_guess',
-            'crsd_header_fits', 'choose_xml_aligned', 'crsd_xml_aligned', 'crsd_file_wellformed']
+            'crsd_header_fits', 'choose_xml_aligned', 'crsd_xml_aligned', 'crsd_file_wellformed',
+            # Bridge/Cphd.lean: regenerated CRSD.py kernels / tables = reference definitions
+            'gen_align', 'gen_retry_align', 'gen_chain', 'gen_retry', 'gen_header_tables'] + cphdwriter.REQUIRED_W11
 KIND = 'CRSD'
 VERSION = '1.0.0'            # the only CRSD version sarpy declares writable (crsd_schema.WRITABLE_VERSIONS)
 
@@ -242,6 +250,8 @@ def one_case(case, tmpdir, drv=None):
             rel = lambda lst: ','.join(f'{a}:{n}' for a, n in lst)
             job = {'case': case, 'kv': kv, 'hend': hend, 'absr': absr, 'blocks': {bk: (g(v[0] + '_BLOCK_BYTE_OFFSET'), g(v[0] + '_BLOCK_SIZE')) for bk, v in blocks.items()},
                    'layout': drv.ask(f'cphd layout {g("XML_BLOCK_BYTE_OFFSET")} {g("XML_BLOCK_SIZE")} {ss} {g("PVP_BLOCK_SIZE")} {g("SIGNAL_BLOCK_SIZE")}'),
+                   'gen': drv.ask(f'cphd gen crsd {g("XML_BLOCK_BYTE_OFFSET")} {g("XML_BLOCK_SIZE")} {meta.Data.NumSupportArrays} {0 if ss == "N" else ss} '
+                                  f'{g("PVP_BLOCK_SIZE")} {g("SIGNAL_BLOCK_SIZE")} {hend}'),
                    'header': drv.ask(f'crsd header {tl} {cl} {rl} {g("XML_BLOCK_SIZE")} {ss} {g("PVP_BLOCK_SIZE")} {g("SIGNAL_BLOCK_SIZE")}'),
                    'ranges': {bk: drv.ask(f'cphd ranges {g(blocks[bk][0] + "_BLOCK_BYTE_OFFSET")} {rel(declared[bk])}') for bk in blocks},
                    'packed': {bk: drv.ask(f'crsd packed 0 {rel(declared[bk])}') for bk in blocks}}
@@ -323,8 +333,12 @@ def run(tier):
     sarpy_guard()
     chk = Check('C11', tier)
     rng = chk.rng
-    broken = chk.prove(['SarpyModel.Props.C11', 'SarpyModel.Props.C09', 'SarpyModel.Drivers'], 'SarpyModel.Props.C11', 'Sarpy.Props.C11', REQUIRED)
+    gen_info = cphdkernels.regenerate()
+    broken = chk.prove(['SarpyModel.Props.C11All', 'SarpyModel.Props.C09', 'SarpyModel.Drivers'], 'SarpyModel.Props.C11All', 'Sarpy.Props.C11', REQUIRED, gen_info)
+    if gen_info['unsupported']:
+        broken.append('translator could not express: ' + json.dumps(gen_info['unsupported']))
     fails, stats, seen, jobs, disagreements = [], {}, set(), [], []
+    tw_jobs, w_jobs, w_stats, w_seen = [], [], {}, set()
     drv = Driver()
     tmpdir = tempfile.mkdtemp(prefix='c11_', dir=os.environ.get('VERIF_SCRATCH', '/var/tmp'))
     logging.disable(logging.CRITICAL)
@@ -338,11 +352,20 @@ def run(tier):
                 stats[k] = stats.get(k, 0) + v
             if job:
                 jobs.append(job)
+        # translator tie: Python fragment / regenerated Lean / reference on random integers
+        tw_jobs, tw_problems = cphdkernels.three_way(KIND, rng, drv, 150 if tier == 'quick' else 3000)
+        broken += tw_problems
+        # writer state machine: op histories on the real CRSDWriter1 vs the Lean machine, plus the direct oracle of the writer clauses
+        w_jobs, w_fails, w_stats, w_seen = cphdwriter.run_batch(KIND, rng, 60 if tier == 'quick' else 1500, tmpdir, drv)
+        fails += w_fails
+        fails += cphdwriter.finding_probes(KIND, tmpdir)
     finally:
         shutil.rmtree(tmpdir, ignore_errors=True)
         logging.disable(logging.NOTSET)
     try:
         ans = drv.run()
+        disagreements += cphdkernels.settle_three_way(KIND, tw_jobs, ans)
+        disagreements += cphdwriter.settle(w_jobs, ans)
         for job in jobs:
             stats['model_cases'] = stats.get('model_cases', 0) + 1
             kv, case = job['kv'], job['case']
@@ -352,6 +375,10 @@ def run(tier):
             t = ans[job['layout']].split()
             if t[:8] != impl:
                 disagreements.append({'what': 'block chain (cphd layout)', 'case': case, 'model': t, 'impl': impl})
+            gt = ans[job['gen']].split()      # regenerated kernels: sizes/offsets in the order of the header fields, then the retry decision
+            gimpl = [impl[1], impl[0], impl[3], impl[2], impl[5], impl[4], impl[7], impl[6], 'N']
+            if gt != gimpl:
+                disagreements.append({'what': 'regenerated make_file_header kernels (cphd gen crsd) vs the header of the written file', 'case': case, 'model': gt, 'impl': gimpl})
             t = ans[job['header']].split()
             if t[0] == 'none' or t[1:9] != impl or int(t[0]) != job['hend']:
                 disagreements.append({'what': 'header text length / retry rule from offset 1024 (crsd header)', 'case': case, 'model': t, 'impl': [job['hend']] + impl})
@@ -366,15 +393,21 @@ def run(tier):
     except Infra as e:
         broken.append('model driver does not build/run: ' + str(e)[:300])
     chk.coverage.update({
-        'evaluations': stats.get('files', 0) + stats.get('model_cases', 0), 'distinct_nontrivial': len(seen),
+        'evaluations': stats.get('files', 0) + stats.get('model_cases', 0) + len(tw_jobs) + w_stats.get('histories', 0),
+        'distinct_nontrivial': len(seen) + len(w_seen), 'writer_histories': w_stats, 'kernel_three_way_cases': len(tw_jobs),
         'rule': 'CRSD 1.0.0 metadata constructed in code and validated against the bundled schema: 1-4 channels of differing sizes x CI2/CI4/CF8 x AmpSF '
                 'present/absent x optional PVP groups (DGRGC, SIGNAL, RcvAntenna, TxPulse[+TxLFM, TxAntenna], AddedPVP) x 0-3 support arrays (IAZ F4, gain/phase '
                 '2xF4, added I2 / F8 / CI4) x ASCII / non-ASCII / long CollectorName x short / >700 character / non-ASCII ReleaseInfo (header retry, header bytes vs characters) x write_file vs '
                 'piecewise writes (PVP / support / signal in random order, signal in shuffled row chunks, formatted or raw, channels by name or integer) x '
-                'path / BytesIO / caller file; distinct = the tuple of those classes',
-        'samples': [j['case'] for j in jobs[:2]], 'stats': stats, 'traces_validated_against_impl': stats.get('model_cases', 0),
+                'path / BytesIO / caller file; distinct = the tuple of those classes. Writer histories (CRSDWriter1): 1-3 channels x 0-2 support arrays of every kind x '
+                'AmpSF x short / >700 byte release string x BytesIO / caller file (both behind a logging proxy) / path x complete (shuffled, chunked, with flushes, '
+                'repeated, malformed and out-of-range calls) / random / premature-close op lists. Kernel three-way: random integers up to 2^44 incl. alignment boundaries',
+        'samples': [j['case'] for j in jobs[:2]] + [j['case'] for j in w_jobs[:1]], 'stats': stats,
+        'traces_validated_against_impl': stats.get('model_cases', 0) + w_stats.get('histories', 0) + len(tw_jobs),
         'disagreements_checked': len(disagreements)})
-    chk.assumptions += ['termination of the make_file_header retry is not proved (the model takes fuel; the driver uses 16 attempts, observed: at most 2)',
+    chk.assumptions += ['termination of the make_file_header retry is proved for files below 10^18 bytes (at most 7 attempts, Props/C09H retry_terminates_7 / C11W); the driver uses 16',
+                        'make_file_header: one attempt and the retry decision are regenerated from CRSD.py and bridged by theorem; the recursion is the hand-written `choose`',
+                        'writer machine: hand model of cphd.py / crsd.py (no translator), tied by op-history correspondence with CRSDWriter1; see harness/cphdwriter.py',
                         'header length model: byte lengths of the classification / release strings are inputs; the decimal digit count is a structural '
                         'definition checked against the real header text length on every file; classification is kept ASCII, release info is not',
                         '_align is computed in floating point by sarpy (exact below 2^53 bytes); the model uses natural numbers',
@@ -408,6 +441,20 @@ def replay(path):
     rec = json.load(open(path))
     case = rec.get('case', {})
     case = case.get('case', case)
+    if isinstance(case, dict) and 'ops' in case and 'seed' in case:      # a writer history
+        print('case:', json.dumps(case)[:1500])
+        tmpdir = tempfile.mkdtemp(prefix='c11_', dir=os.environ.get('VERIF_SCRATCH', '/var/tmp'))
+        logging.disable(logging.CRITICAL)
+        try:
+            fails = cphdwriter.replay_case(case, tmpdir)
+        finally:
+            shutil.rmtree(tmpdir, ignore_errors=True)
+            logging.disable(logging.NOTSET)
+        for f in fails:
+            print('FAIL:', f['msg'])
+        if not fails:
+            print('no failure on the current source')
+        return 1 if fails else 0
     if 'data_seed' not in case:
         print(json.dumps(rec)[:2000])
         return 1
